@@ -144,6 +144,7 @@ func cmdGen(args []string) {
 	seed := fs.Int64("seed", 1, "")
 	ntrees := fs.Int("ntrees", 50, "")
 	per := fs.Int("per", 20, "")
+	repeat := fs.Int("repeat", 1, "")
 	catalog := fs.String("catalog", "", "catalogue of hand-written trees (ndjson) placed first")
 	outTrees := fs.String("trees", "trees.ndjson", "")
 	outDecls := fs.String("decls", "decls.ndjson", "")
@@ -175,6 +176,7 @@ func cmdGen(args []string) {
 		for k := 0; k < *per; k++ {
 			id++
 			sc := genScenario(r, t, id)
+			sc.Repeat = *repeat
 			ws.Write(marshalLine(sc))
 		}
 	}
@@ -245,6 +247,18 @@ func init() {
 			}
 			t := trees[sc.Decl-1]
 			sc.Obs = runArgparse(t, sc, sc.Argv)
+			sc.Obs.Distinct = 1
+			if sc.Repeat > 1 {
+				first, _ := json.Marshal(sc.Obs)
+				seen := map[string]bool{string(first): true}
+				for i := 1; i < sc.Repeat; i++ {
+					o := runArgparse(t, sc, sc.Argv)
+					o.Distinct = 1
+					j, _ := json.Marshal(o)
+					seen[string(j)] = true
+				}
+				sc.Obs.Distinct = len(seen)
+			}
 			if sc.Alt != nil {
 				sc.ObsAlt = runArgparse(t, sc, sc.Alt)
 			}
@@ -413,11 +427,49 @@ func main() {
 		cmdWorker(os.Args[2:])
 	case "ftab":
 		cmdFtab(os.Args[2:])
+	case "gen-help":
+		fs := flag.NewFlagSet("gen-help", flag.ExitOnError)
+		seed := fs.Int64("seed", 1, "")
+		ntrees := fs.Int("ntrees", 50, "")
+		per := fs.Int("per", 20, "")
+		repeat := fs.Int("repeat", 1, "")
+		outTrees := fs.String("trees", "trees.ndjson", "")
+		outDecls := fs.String("decls", "decls.ndjson", "")
+		outScen := fs.String("scen", "scen.ndjson", "")
+		fs.Parse(os.Args[2:])
+		r := rand.New(rand.NewSource(*seed))
+		ft, _ := os.Create(*outTrees)
+		fd, _ := os.Create(*outDecls)
+		fsn, _ := os.Create(*outScen)
+		wt, wd, ws := bufio.NewWriter(ft), bufio.NewWriter(fd), bufio.NewWriter(fsn)
+		id := 0
+		for n := 1; n <= *ntrees; {
+			t := genTree(r, n)
+			decorateForHelp(r, t)
+			Flatten(t)
+			if !treeOK(t) {
+				continue
+			}
+			t.ID = n
+			wt.Write(marshalLine(t))
+			wd.Write(marshalLine(Flatten(t)))
+			for k := 0; k < *per; k++ {
+				id++
+				sc := genHelp(r, t, id)
+				sc.Repeat = *repeat
+				ws.Write(marshalLine(sc))
+			}
+			n++
+		}
+		wt.Flush()
+		wd.Flush()
+		ws.Flush()
 	case "gen-completion":
 		fs := flag.NewFlagSet("gen-completion", flag.ExitOnError)
 		seed := fs.Int64("seed", 1, "")
 		ntrees := fs.Int("ntrees", 50, "")
 		per := fs.Int("per", 20, "")
+		crepeat := fs.Int("repeat", 1, "")
 		outTrees := fs.String("trees", "trees.ndjson", "")
 		outDecls := fs.String("decls", "decls.ndjson", "")
 		outScen := fs.String("scen", "scen.ndjson", "")
@@ -441,7 +493,11 @@ func main() {
 			wd.Write(marshalLine(Flatten(t)))
 			for k := 0; k < *per; k++ {
 				id++
-				ws.Write(marshalLine(genCompletion(r, t, id)))
+				csc := genCompletion(r, t, id)
+				if *crepeat > 1 {
+					csc.Tags = append(csc.Tags, fmt.Sprintf("repeat=%d", *crepeat))
+				}
+				ws.Write(marshalLine(csc))
 			}
 			n++
 		}
